@@ -449,7 +449,7 @@ class Orchestrator:  # thailint: ignore[srp]
         self._ensure_rules_discovered()
         rules = [r for r in self.registry.list_all() if type(r).finalize is not BaseLintRule.finalize]
         for file_path in file_paths:
-            if _is_hardcoded_excluded(file_path) or self.ignore_parser.is_ignored(file_path):
+            if _is_hardcoded_excluded(self._path_inside_project(file_path)) or self.ignore_parser.is_ignored(file_path):
                 continue
             metadata = {**self.config, "_project_root": self.project_root}
             context = FileLintContext(file_path, detect_language(file_path), metadata=metadata)
